@@ -18,7 +18,7 @@ for d in sorted(os.listdir("/verif/seeded")):
     if not title and os.path.exists(p + "/notes.md"):
         for l in open(p + "/notes.md"):
             if l.strip():
-                title = re.sub(r"^#\s*C\d\d\s*/\s*(change\s*)?[a-l]\s*[-—–]*\s*", "", l.strip())
+                title = re.sub(r"^#\s*C\d\d\s*/\s*(change\s*)?[a-z]\s*[-—–]*\s*", "", l.strip())
                 break
     det = m.get("detected_by")
     if isinstance(det, list) and det:
